@@ -28,6 +28,7 @@ SrvPlan == CASE Plan = "one"    -> << NewServer(4, 1, 2, 0, 3, 1) >>
              [] Plan = "mixed"  -> << NewServer(4, 1, 2, 0, 2, 1), NewServer(6, 1, 2, 0, 2, 2) >>
              [] Plan = "three"  -> << NewServer(4, 1, 2, 0, 2, 1) >>
              [] Plan = "fixed"  -> << NewServer(4, 1, 2, 0, 2, 1) >>
+             [] Plan = "thr2"   -> << NewServer(4, 1, 2, 0, 2, 1) >>
 CliPlan == CASE Plan = "three" -> <<1, 2>>
              [] Plan = "fixed" -> <<1, 2>>
              [] Plan = "mixed" -> <<1, 2>>
@@ -37,11 +38,13 @@ QPlan == CASE Plan = "three" -> << <<TRUE, 0, 1>>, <<TRUE, 0, 2>>, <<TRUE, 0, 3>
            [] Plan = "mrd"   -> << <<TRUE, 0, 1>> >>
            [] OTHER -> << <<TRUE, 0, 1>>, <<TRUE, 0, 1>> >>      \* two queries with the SAME request authenticator
 NQ == Len(QPlan)
+NThr == IF Plan = "thr2" THEN 2 ELSE 1                 \* "thr2": the two queries belong to two pool threads
+QThr(q) == IF Plan = "thr2" THEN q - 1 ELSE 0
 
 RECURSIVE AddServers(_, _)
 AddServers(s, n) == IF n > Len(SrvPlan) THEN s
                     ELSE AddServers([s EXCEPT !.srv = Append(@, SrvPlan[n]), !.unreach = Append(@, 0)], n + 1)
-Init == /\ st = AddServers(InitState(CliPlan[1], CliPlan[2], 1, 1), 1)
+Init == /\ st = AddServers(InitState(CliPlan[1], CliPlan[2], 1, NThr), 1)
         /\ flips = 0
 
 Js == {[def |-> c, map |-> << >>] : c \in JitClasses}
@@ -50,7 +53,7 @@ Dvs == SUBSET Dev
 DoSubmit == /\ st.up
             /\ Cardinality(DOMAIN st.qs) < NQ
             /\ LET q == Cardinality(DOMAIN st.qs) + 1 IN
-               st' = Submit(st, q, NewQuery(0, QPlan[q][1], QPlan[q][2], QPlan[q][3], 0))
+               st' = Submit(st, q, NewQuery(QThr(q), QPlan[q][1], QPlan[q][2], QPlan[q][3], 0))
             /\ UNCHANGED flips
 DoStart == /\ st.up
            /\ \E t \in DOMAIN st.msgs : /\ st.msgs[t] # << >>
@@ -83,9 +86,11 @@ DoCancel == /\ AllowCancel /\ st.up
             /\ \E q \in DOMAIN st.qs : /\ CancelEnabled(st, q)
                                        /\ \E dv \in Dvs : st' = HCancel(st, q, dv).st
             /\ UNCHANGED flips
+RECURSIVE DestroyAll(_, _, _)
+DestroyAll(s, t, dv) == IF t >= NThr THEN s ELSE DestroyAll(HDestroyThr(s, t, dv).st, t + 1, dv)
 DoDestroy == /\ AllowDestroy /\ st.up
              /\ \A t \in DOMAIN st.msgs : st.msgs[t] = << >>      \* the destroy message queues behind pending query messages
-             /\ \E dv \in Dvs : st' = [HDestroyThr(st, 0, dv).st EXCEPT !.up = FALSE]
+             /\ \E dv \in Dvs : st' = [DestroyAll(st, 0, dv) EXCEPT !.up = FALSE]
              /\ UNCHANGED flips
 Next == DoSubmit \/ DoStart \/ DoFire \/ DoRecv \/ DoReply \/ DoEnv \/ DoCancel \/ DoDestroy
 
@@ -105,6 +110,7 @@ IQuiescent == PQuiescent(st)
 IDestroyed == PDestroyed(st)
 IMemSafe == PMemSafe(st)
 INas == PNas(st)
+IBufUnits == PBufUnits(st)
 (* the sum of the armed retransmission times of one server visit stays within MRD (zero jitter) *)
 IDuration == \A q \in Active(st) : LET Q == st.qs[q] IN
                 (Q.s # None /\ st.srv[Q.k].mrd # 0 /\ st.srv[Q.k].irt <= st.srv[Q.k].mrd /\ JitClasses = {"zero"})
